@@ -40,15 +40,15 @@ SlopeBound(d) == 6 * d + (IF d < 700000 THEN (d * 2957 + 9999) \div 10000 ELSE (
 
 Advance(tags) ==
   /\ l' = l + 1
-  /\ dead' = (dead \/ tags # {})
-  /\ Flag(l, IF dead THEN {} ELSE tags)
+  /\ dead' = dead \cup PropsOf(tags)
+  /\ Flag(l, LiveTags(tags, dead))
 
 \* phase mismatch after an operation: if the two read-out channels agree with each other it is
 \* the phase that is wrong (C11), otherwise the up-saw read-out itself (C10)
 PhaseTags(what) ==
   IF e.a = acc' THEN {}
-  ELSE IF e.a >= 0 /\ e.a < M /\ TriAt(e.a) = 4 * e.t4 THEN {"C11:" \o what}
-  ELSE {"C10:saw"}
+  ELSE IF e.a >= 0 /\ e.a < M /\ TriAt(e.a) = 4 * e.t4 THEN {<<"C11", what>>}
+  ELSE {<<"C10", "saw">>}
 
 CeilDiv(x, d) == -((-x) \div d)
 
@@ -57,25 +57,25 @@ StepTags ==
   LET eps16 == CeilDiv(e.fl + 1, 128) + 1      \* 2^-23 relative, in 2^-16 units, + slack
       upper == e.fl + (e.fr + eps16) \div 65536
       lower == Max2(0, e.fl + CeilDiv(e.fr - eps16, 65536) - 1)
-  IN IF \E i \in lower..upper : i % M = e.st THEN {} ELSE {"C11:increment"}
+  IN IF \E i \in lower..upper : i % M = e.st THEN {} ELSE {<<"C11", "increment">>}
 
 GetTags ==
   LET a == acc' IN
-       (IF e.saw + Half # a THEN {"C10:saw"} ELSE {})
-  \cup (IF ~e.x THEN {"C10:inexact"} ELSE {})
-  \cup (IF e.dn # -e.saw THEN {"C10:down-saw"} ELSE {})
-  \cup (IF e.sq # SqrAt(a) THEN {"C10:square"} ELSE {})
-  \cup (IF 4 * e.tri # TriAt(a) THEN {"C10:triangle"} ELSE {})
-  \cup (IF e.sin = NaNKey \/ ~Near(e.sin, SinAt(a), SineTol) THEN {"C10:sine-accuracy"} ELSE {})
-  \cup (IF e.sin > 16777216 \/ e.sin < -16777216 THEN {"C10:sine-range"} ELSE {})
+       (IF e.saw + Half # a THEN {<<"C10", "saw">>} ELSE {})
+  \cup (IF ~e.x THEN {<<"C10", "inexact">>} ELSE {})
+  \cup (IF e.dn # -e.saw THEN {<<"C10", "down-saw">>} ELSE {})
+  \cup (IF e.sq # SqrAt(a) THEN {<<"C10", "square">>} ELSE {})
+  \cup (IF 4 * e.tri # TriAt(a) THEN {<<"C10", "triangle">>} ELSE {})
+  \cup (IF e.sin = NaNKey \/ ~Near(e.sin, SinAt(a), SineTol) THEN {<<"C10", "sine-accuracy">>} ELSE {})
+  \cup (IF e.sin > 16777216 \/ e.sin < -16777216 THEN {<<"C10", "sine-range">>} ELSE {})
 
 \* continuity between two read-outs separated by exactly one tick of step d
 StepOf(n, d) ==
   IF ~lastG[1] \/ e.sin = NaNKey THEN {}
-  ELSE IF n = 0 THEN (IF e.sin # lastG[2] \/ e.tri # lastG[3] THEN {"C10:read-disturbs"} ELSE {})
+  ELSE IF n = 0 THEN (IF e.sin # lastG[2] \/ e.tri # lastG[3] THEN {<<"C10", "read-disturbs">>} ELSE {})
   ELSE IF n = 1 THEN
-         (IF ~Near(e.sin, lastG[2], SlopeBound(d) + 6) THEN {"C12:sine-step"} ELSE {})
-    \cup (IF ~Near(e.tri, lastG[3], d) THEN {"C12:triangle-step"} ELSE {})
+         (IF ~Near(e.sin, lastG[2], SlopeBound(d) + 6) THEN {<<"C12", "sine-step">>} ELSE {})
+    \cup (IF ~Near(e.tri, lastG[3], d) THEN {<<"C12", "triangle-step">>} ELSE {})
   ELSE {}
 
 ---------------------------------------------------------------------------
@@ -84,7 +84,7 @@ TMeta == e.op = "meta" /\ UNCHANGED <<lfoVars, dead, lastG, lastNeg>> /\ l' = l 
 TNew ==
   /\ e.op = "new"
   /\ acc' = 0 /\ inc' = 0 /\ rolled' = FALSE /\ lastAcc' = 0
-  /\ l' = l + 1 /\ dead' = FALSE
+  /\ l' = l + 1 /\ dead' = {}
   /\ lastG' = <<FALSE, 0, 0, 0, 0>> /\ lastNeg' = <<-1, -1>>
 
 TTick ==
@@ -105,11 +105,11 @@ TSetPhase ==
   /\ SetPhase(IF e.a >= 0 /\ e.a < M THEN e.a ELSE acc)
   /\ lastG' = <<FALSE, 0, 0, 0, 0>>
   /\ lastNeg' = IF e.neg THEN <<e.lo, e.a>> ELSE lastNeg
-  /\ Advance(   (IF e.a < 0 \/ e.a >= M THEN {"C11:set-phase-range"} ELSE {})
-           \cup (IF ~e.neg /\ (e.a < e.lo - 4 \/ e.a > e.hi + 4) THEN {"C11:set-phase"} ELSE {})
+  /\ Advance(   (IF e.a < 0 \/ e.a >= M THEN {<<"C11", "set-phase-range">>} ELSE {})
+           \cup (IF ~e.neg /\ (e.a < e.lo - 4 \/ e.a > e.hi + 4) THEN {<<"C11", "set-phase">>} ELSE {})
            \cup (IF e.neg /\ e.lo = e.hi /\ lastNeg[1] = e.lo /\ lastNeg[2] # e.a
-                   THEN {"C11:set-phase-negative"} ELSE {})
-           \cup (IF e.a >= 0 /\ e.a < M /\ TriAt(e.a) # 4 * e.t4 THEN {"C10:saw"} ELSE {}))
+                   THEN {<<"C11", "set-phase-negative">>} ELSE {})
+           \cup (IF e.a >= 0 /\ e.a < M /\ TriAt(e.a) # 4 * e.t4 THEN {<<"C10", "saw">>} ELSE {}))
 
 TReset ==
   /\ e.op = "r"
@@ -131,13 +131,15 @@ TTickGet ==
   /\ lastG' = <<TRUE, e.sin, e.tri, 0, 0>>
   /\ Advance(GetTags \cup StepOf(lastG[4] + 1, inc))
 
+\* a panic is an event no action accepts: C17 always, and the property about the call that panicked
 TPanic ==
   /\ e.op = "panic"
   /\ UNCHANGED <<lfoVars, lastG, lastNeg>>
-  /\ Advance({"C17:panic"})
+  /\ Advance({<<"C17", "panic">>} \cup (IF e.during \in {"get", "tick+get"} THEN {<<"C10", "panic-reading-shapes">>}
+                                        ELSE {<<"C11", "panic">>}))
 
 TNext == l <= NRec /\ (TMeta \/ TNew \/ TTick \/ TSetFreq \/ TSetPhase \/ TReset \/ TGet \/ TTickGet \/ TPanic)
-TInit == PA_Init /\ l = 1 /\ dead = FALSE /\ lastG = <<FALSE, 0, 0, 0, 0>> /\ lastNeg = <<-1, -1>> /\ FlagInit
+TInit == PA_Init /\ l = 1 /\ dead = {} /\ lastG = <<FALSE, 0, 0, 0, 0>> /\ lastNeg = <<-1, -1>> /\ FlagInit
 TSpec == TInit /\ [][TNext]_tvars
 TInv == acc \in 0..(M - 1)
 =============================================================================
